@@ -821,28 +821,27 @@ mutual
 /-- the liveness-dependent part of the contract, following the same backward scan as `dceStmts`:
     * every initialiser / stored value the pass deletes satisfies `P` (the caller's "cannot fail,
       cannot write" predicate);
-    * a variable that is live at the head of a loop body but not after the loop is not assigned
-      in the body (`dce.rs` analyses a loop body once, with the live set after the loop). -/
+    * a variable assigned in a loop body is neither live after the loop nor live at the start of
+      an iteration (`dce.rs` analyses a loop body once, with the live set after the loop, and
+      treats `break` as falling through). -/
 def semOK (P : GExpr → Bool) : List GStmt → Names → Bool
   | [], _ => true
   | s :: rest, liveOut =>
     let r := dceStmts rest liveOut
     semOK P rest liveOut && semOKStmt P s r.live
 def semOKStmt (P : GExpr → Bool) : GStmt → Names → Bool
-  | .varDecl x _ v, live =>
-    (match v with
-     | some e => live.contains x || exprEffects (dceExpr e) || P (dceExpr e)
-     | none => true)
+  | .varDecl x _ (some e), live => live.contains x || exprEffects (dceExpr e) || P (dceExpr e)
+  | .varDecl _ _ none, _ => true
   | .assign x v, live => live.contains x || exprEffects (dceExpr v) || P (dceExpr v)
   | .loop body, live =>
-    (dceStmts body live).live.all (fun x => live.contains x || !(writesStmts body).contains x)
+    (writesStmts body).all (fun x => !(live.contains x) && !((dceStmts body live).live.contains x))
       && semOK P body live
-  | .ite _ t e, live => semOK P t live && (match e with | some b => semOK P b live | none => true)
-  | .switch _ cs d, live =>
-    semOKCases P cs live
-      && (match d with | some b => semOK P b (dceCases cs live).live | none => true)
-  | .tswitch _ _ cs d, live =>
-    semOKTCases P cs live && (match d with | some b => semOK P b live | none => true)
+  | .ite _ t (some b), live => semOK P t live && semOK P b live
+  | .ite _ t none, live => semOK P t live
+  | .switch _ cs (some b), live => semOKCases P cs live && semOK P b (dceCases cs live).live
+  | .switch _ cs none, live => semOKCases P cs live
+  | .tswitch _ _ cs (some b), live => semOKTCases P cs live && semOK P b live
+  | .tswitch _ _ cs none, live => semOKTCases P cs live
   | _, _ => true
 def semOKCases (P : GExpr → Bool) : List GCase → Names → Bool
   | [], _ => true
